@@ -225,7 +225,7 @@ func (x *Exec) callSSA(caller *frame, site ssa.Instruction, fn *ssa.Function, ar
 	if fn.Blocks == nil {
 		abortf("unmodelled callee (no body): %s", name)
 	}
-	if fn.Pkg != nil && x.eng.refused[fn.Pkg.Pkg.Path()] {
+	if fn.Pkg != nil && x.eng.refused[fn.Pkg.Pkg.Path()] && !allowedInRefused(fn) {
 		abortf("unmodelled callee (refused package): %s", name)
 	}
 	if fn.TypeParams().Len() > 0 && len(fn.TypeArgs()) == 0 {
@@ -903,4 +903,21 @@ func (x *Exec) runInits(h *ssa.Function) {
 	if init := h.Pkg.Func("init"); init != nil {
 		x.callSSA(nil, nil, init, nil, nil)
 	}
+}
+
+// allowedInRefused: pure helpers inside otherwise refused packages (time.Duration arithmetic).
+func allowedInRefused(fn *ssa.Function) bool {
+	if recv := fn.Signature.Recv(); recv != nil {
+		t := recv.Type()
+		if p, ok := t.(*types.Pointer); ok {
+			t = p.Elem()
+		}
+		if n, ok := t.(*types.Named); ok && n.Obj().Pkg() != nil && n.Obj().Pkg().Path() == "time" {
+			switch n.Obj().Name() {
+			case "Duration", "Month", "Weekday":
+				return true
+			}
+		}
+	}
+	return false
 }
